@@ -504,6 +504,7 @@ type Contract struct {
 	NoSafe     bool   // skip SAFE obligations (must be listed as assumption)
 	Unroll     int
 	ResultName string
+	Implements string
 }
 
 type Lemma struct {
@@ -514,7 +515,15 @@ type Lemma struct {
 	Line string
 }
 
+type Abstract struct {
+	Name   string // $sp
+	Iface  string // callFrameStack
+	Params []Binder
+	Ret    string
+}
+
 type SpecDB struct {
+	Abstracts map[string]*Abstract
 	Contracts map[string]*Contract
 	Order     []string
 	Defines   map[string]*Define
@@ -530,7 +539,8 @@ var tagsRe = regexp.MustCompile(`^(\w[\w-]*)\[([A-Z0-9, ]+)\]`)
 var clauseKeywords = map[string]bool{"func": true, "iface": true, "extern": true, "trusted": true, "define": true,
 	"lemma": true, "requires": true, "ensures": true, "raises": true, "noraise": true, "noreturn": true,
 	"modifies": true, "loop": true, "assert": true, "mode": true, "inline": true, "pure": true,
-	"outside-subset": true, "assume": true, "may-panic": true, "nosafe": true, "end": true, "bounded": true}
+	"outside-subset": true, "assume": true, "may-panic": true, "nosafe": true, "end": true, "bounded": true,
+	"abstract": true, "implements": true}
 
 func splitTags(s string) []string {
 	s = strings.Trim(s, "[] ")
@@ -539,7 +549,7 @@ func splitTags(s string) []string {
 }
 
 func loadSpecFiles(repo string) (*SpecDB, error) {
-	db := &SpecDB{Contracts: map[string]*Contract{}, Defines: map[string]*Define{}, Invs: map[string]*Define{}}
+	db := &SpecDB{Contracts: map[string]*Contract{}, Defines: map[string]*Define{}, Invs: map[string]*Define{}, Abstracts: map[string]*Abstract{}}
 	files := []string{"contracts_verif.go", "pm/contracts_verif.go", "parse/contracts_verif.go"}
 	more, _ := filepath.Glob(filepath.Join(repo, "contracts_verif_*.go"))
 	for _, m := range more {
@@ -560,6 +570,7 @@ func loadSpecFiles(repo string) (*SpecDB, error) {
 		}
 		db.parseFile(f, prefix, string(data))
 	}
+	db.resolveImplements()
 	if len(db.Errors) > 0 {
 		return db, fmt.Errorf("contract file errors:\n  %s", strings.Join(db.Errors, "\n  "))
 	}
@@ -662,6 +673,28 @@ func (db *SpecDB) parseFile(fname, prefix, data string) {
 			db.Order = append(db.Order, key)
 		case "end":
 			cur = nil
+		case "abstract":
+			// abstract callFrameStack.$sp(self) int   |  abstract callFrameStack.$frame(self, i int) *callFrame
+			lp := strings.Index(rest, "(")
+			rp := strings.LastIndex(rest, ")")
+			dot := strings.Index(rest, ".")
+			if lp < 0 || rp < lp || dot < 0 || dot > lp {
+				errf("bad abstract declaration %q", rest)
+				continue
+			}
+			ab := &Abstract{Iface: strings.TrimSpace(rest[:dot]), Name: strings.TrimSpace(rest[dot+1 : lp]), Ret: strings.TrimSpace(rest[rp+1:])}
+			for i, p := range strings.Split(rest[lp+1:rp], ",") {
+				f := strings.Fields(p)
+				if i == 0 {
+					continue
+				}
+				if len(f) != 2 {
+					errf("bad abstract parameter %q", p)
+					continue
+				}
+				ab.Params = append(ab.Params, Binder{f[0], f[1]})
+			}
+			db.Abstracts[ab.Name] = ab
 		case "define":
 			// define name(p T, q U) R = expr
 			eq := strings.Index(rest, "=")
@@ -740,6 +773,8 @@ func (db *SpecDB) parseFile(fname, prefix, data string) {
 					continue
 				}
 				cur.Raises = &Clause{Kind: "raises", E: pe(strings.TrimSpace(rest[4:])), Tags: ctags, Line: loc}
+			case "implements":
+				cur.Implements = "iface " + prefix + rest
 			case "noraise":
 				cur.NoRaise = true
 			case "noreturn":
@@ -818,6 +853,50 @@ func (db *SpecDB) parseFile(fname, prefix, data string) {
 	}
 }
 
+// resolveImplements copies the clauses of an interface contract into each implementing method's contract.
+func (db *SpecDB) resolveImplements() {
+	for _, k := range db.Order {
+		ct := db.Contracts[k]
+		if ct.Implements == "" {
+			continue
+		}
+		ic := db.Contracts[ct.Implements]
+		if ic == nil {
+			db.Errors = append(db.Errors, fmt.Sprintf("%s: implements unknown %s", ct.Line, ct.Implements))
+			continue
+		}
+		short := strings.TrimPrefix(ct.Implements, "iface ")
+		for _, rq := range ic.Requires {
+			ct.Requires = append(ct.Requires, rq)
+		}
+		for i, en := range ic.Ensures {
+			c := *en
+			c.Label = fmt.Sprintf("IFACE:%s/%d", short, i+1)
+			if len(c.Tags) == 0 {
+				c.Tags = ic.Tags
+			}
+			ct.Ensures = append(ct.Ensures, &c)
+		}
+		if ic.NoRaise {
+			ct.NoRaise = true
+		}
+		if ic.Raises != nil && ct.Raises == nil {
+			ct.Raises = ic.Raises
+		}
+		for _, t := range ic.Tags {
+			found := false
+			for _, u := range ct.Tags {
+				if u == t {
+					found = true
+				}
+			}
+			if !found {
+				ct.Tags = append(ct.Tags, t)
+			}
+		}
+	}
+}
+
 // splitTop splits on commas that are not nested in () or [].
 func splitTop(s string) []string {
 	var out []string
@@ -848,6 +927,15 @@ func parseModItem(s string) (ModItem, error) {
 		return mi, nil
 	case "nothing":
 		mi.Kind = "nothing"
+		return mi, nil
+	}
+	if strings.HasPrefix(s, "ghost(") && strings.HasSuffix(s, ")") {
+		e, err := parseExpr(s[6 : len(s)-1])
+		if err != nil {
+			return mi, err
+		}
+		mi.Kind = "ghost"
+		mi.E = e
 		return mi, nil
 	}
 	if strings.HasPrefix(s, "elems(") && strings.HasSuffix(s, ")") {
